@@ -12,6 +12,14 @@ CHECKS = {
          "Every one of the 191,491,529 representable dates is visited on every run and compared field by field with an independently written Gregorian/ISO reference; the constructor argument space is explored per year on boundary cells (quick) or all cells (thorough) plus random i32/u32 tuples. For the date domain this is as strong as observation gets (complete enumeration); for the argument tuples it is sampling concentrated at specification boundaries.",
          "Trusted: the reference calendar in harness/src/refcal.rs (self-tested each run), rustc's overflow checks. Constructor tuples far from any boundary are only randomly sampled.",
          "DESIGN.md §4 C01"),
+ "C02": ("differential runtime monitor: every timestamp constructor/accessor call compared with an i128 reference instant model on boundary catalogues, exhaustive day/millisecond slices and random i64 counts; panic/overflow monitor",
+         "Runs the real from_timestamp*/timestamp* functions on millions of counts concentrated at the specification's boundaries (range ends ±3, unit boundaries, negative sub-second counts, the 2^63 ns window, leap-second nanosecond fields) and compares every result with exact integer arithmetic, in both directions and through SystemTime. Sampling, not proof: the i64 domain cannot be enumerated.",
+         "Trusted: reference instant model (harness/src/refinst.rs, refcal.rs). Counts far from all boundaries are covered only by random sampling.",
+         "DESIGN.md §4 C02"),
+ "C03": ("differential runtime monitor against exact i128 arithmetic for date-time ± duration, distances, date ± days and the day/week iterators (step and length monitors), checked + plain lanes",
+         "Every catalogue date-time is combined with a per-operand catalogue of durations that hit the exact range ends ±2 ns, day carries, sign/fraction combinations and TimeDelta extremes; iterators are driven to exhaustion at both range ends; all ordered pairs of N values check the distance laws; operator forms are compared with checked forms; the same instants are required whatever the offset. Both the overflow-checking and the plain release build are exercised because wrap-around is only visible as a value in the latter.",
+         "Trusted: reference instant model. Leap-second operands are excluded here by the property (C07). Random part is sampling.",
+         "DESIGN.md §4 C03"),
 }
 NOT_YET = {}
 
